@@ -93,6 +93,24 @@ def explore(res, tier, seed, model_ok=True):
         pj = coreutil.scenario_to_json(prev)
         pj['compress'], pj['url'], pj['protocols'] = js['compress'], js['url'], js['protocols']      # constructor arguments belong to the object
         chains.append([pj, js]); cmeta.append((name, k))
+    # ... and systematically: after each kind of previous connection, a plain connection abandoned at every event by every mechanism
+    plain = Scenario(reads([g + server_frame(1, b'hello') + server_frame(9, b'p')]) + [('wait', 5, None), ('wait', 1, ('eof',))], {}, prate=0)
+    plain_evs = events(coreutil.real_one(coreutil.scenario_to_json(plain)))
+    sys_chains, sys_meta = [], []
+    for name, prev in prevs:
+        for i in range(len(plain_evs)):
+            for mech in MECHS:
+                nx = coreutil.scenario_from_json(coreutil.scenario_to_json(plain))
+                nx.reactions = {i: [('abandon', mech)]}
+                sys_chains.append([coreutil.scenario_to_json(prev), coreutil.scenario_to_json(nx)]); sys_meta.append((name, plain_evs[i].split(':')[1], mech))
+    for ch, tr, (name, evname, mech) in zip(sys_chains, runner.parallel_map('coreutil', 'real_chain', sys_chains, chunk=10), sys_meta):
+        if isinstance(tr, dict):
+            res.crashes.append(tr); continue
+        res.case(('after-sys', name, evname, mech), nontrivial=evname not in ('connecting',)); res.count('after_' + name)
+        end = tr[-1].split(' ')[-1]
+        if 'sock=1' in end or 'sel=1' in end:
+            res.failures.append(dict(cls='leak-at-' + evname, what='on an object whose previous connection was "%s": abandoning at %s by %s leaves %s open' % (name, evname, mech, 'socket' if 'sock=1' in end else 'selector'),
+                                     input=dict(previous=ch[:-1], next=ch[-1]), observed=end))
     traces = runner.parallel_map('coreutil', 'real_chain', chains, chunk=10)
     for ch, tr, (name, k) in zip(chains, traces, cmeta):
         if isinstance(tr, dict):
